@@ -80,7 +80,11 @@ def main():
         cap = float(os.environ.get('VERIF_CAP_S', '0') or 0) or None
     print('[%s] tier=%s seed=%d src=%s' % (pid, a.tier, seed,
                                            os.environ.get('TENEVA_SRC', '/repo')))
-    total, meta = engine.explore(mod, a.tier, seed, nproc=a.nproc, cap_s=cap)
+    try:
+        total, meta = engine.explore(mod, a.tier, seed, nproc=a.nproc, cap_s=cap)
+    except RuntimeError as ex:
+        print('HARNESS-ERROR: %s' % ex)
+        return 3
     rc = engine.report(mod, a.tier, seed, total, meta)
     print('[%s] evals=%d nontrivial=%d states=%d transitions=%d skipped=%s '
           'violations=%d exhaustive=%s wall=%.1fs -> exit %d' % (
